@@ -43,12 +43,19 @@ Theorem write_keeps_original o st d w data mode :
 Proof.
   intros Hb Hn Hl Hex Hne. cbv zeta. unfold write_now. rewrite Hb.
   remember (d_dest d) as dest eqn:Edest. remember (backup_name o dest) as b eqn:Eb.
-  rewrite mbind_eq.
-  destruct (make_backup_for o st dest w) as [[st1|e] w1] eqn:B.
+  assert (Hn' := Hn). rewrite Eb in Hn'. rewrite (make_backup_for_shape o st dest Hn'). rewrite <- Eb.
+  set (st0 := mkDS (had_failure st) (b :: backed_up st) (deferred_writes st) (deferred_removals st) (events st)).
+  rewrite mbind_eq. rewrite mbind_eq.
+  destruct (ensure_parent_directories b w) as [[[]|e0] w0] eqn:En.
+  2:{ (* the directory for the backup could not be made: nothing has happened to the target *)
+      left. cbn [snd]. apply (ensure_extends _ _ _ _ En). exact Hl. }
+  pose proof (ensure_extends _ _ _ _ En) as Ext.
+  assert (Hl0 : lookup (fs w0) dest = Some (Reg data mode)) by (apply Ext; exact Hl).
+  assert (Hex0 : exists_ (fs w0) dest = true) by (eapply exists_extends; eauto).
+  destruct (backup_core st0 dest b w0) as [[st1|e] w1] eqn:B.
   - (* the backup was taken: the original is at b and stays there *)
-    assert (Hn' := Hn). rewrite Eb in Hn'.
-    destruct (backup_holds_original o st dest w st1 w1 Hn' B) as (_ & Hx & _).
-    destruct (Hx Hex) as (n & L0 & Lb & Ld). rewrite <- Eb in *. rewrite Hl in L0. inversion L0; subst n. specialize (Ld Hne).
+    destruct (backup_holds_original st0 dest b w0 st1 w1 B) as (_ & Hx & _).
+    destruct (Hx Hex0) as (n & L0 & Lb & Ld). rewrite Hl0 in L0. inversion L0; subst n. specialize (Ld Hne).
     right. rewrite mbind_eq. cbn [get_fs]. rewrite (exists_none _ _ Ld).
     assert (Step0 : (match d_chmod_first d with Some _ => mret tt | None => mret tt end) w1 = (Ok tt, w1)) by (destruct (d_chmod_first d); reflexivity).
     rewrite mbind_eq. rewrite Step0.
@@ -71,14 +78,14 @@ Proof.
       * cbn. intros [E|[]]. apply Hne. exact E.
       * cbn. intros p t [<-|[]] Hs. rewrite Ld in Hs. discriminate.
   - (* the backup could not be taken: nothing has happened to the target *)
-    left. cbn [snd]. unfold make_backup_for in B. rewrite <- Eb in B. rewrite Hn in B. rewrite mbind_eq in B. cbn [get_fs] in B. rewrite Hex in B.
-    rewrite mbind_eq in B. destruct (checked (ORename dest b) w) as [[[]|e2] w2] eqn:C; [cbn in B; discriminate|].
+    left. cbn [snd]. unfold backup_core in B. rewrite mbind_eq in B. cbn [get_fs] in B. rewrite Hex0 in B.
+    rewrite mbind_eq in B. destruct (checked (ORename dest b) w0) as [[[]|e2] w2] eqn:C; [cbn in B; discriminate|].
     inversion B as [[Be Bw]]. rewrite <- Bw. clear B Be Bw.
-    unfold checked in C. rewrite mbind_eq in C. destruct (perform (ORename dest b) w) as [[x|e3] w3] eqn:P.
+    unfold checked in C. rewrite mbind_eq in C. destruct (perform (ORename dest b) w0) as [[x|e3] w3] eqn:P.
     + destruct (perform_ok _ _ _ _ P) as [[X _]|(e4 & X & F)].
       * inversion X as [X']. rewrite X' in C. cbn in C. discriminate.
-      * inversion X as [X']. rewrite X' in C. cbn in C. inversion C as [[C1 C2]]. rewrite <- C2, F. exact Hl.
-    + unfold perform in P. destruct (fault w) as [[|k]|]; [discriminate| |]; destruct (exec_op (fs w) (umask w) (ORename dest b)); discriminate.
+      * inversion X as [X']. rewrite X' in C. cbn in C. inversion C as [[C1 C2]]. rewrite <- C2, F. exact Hl0.
+    + unfold perform in P. destruct (fault w0) as [[|k]|]; [discriminate| |]; destruct (exec_op (fs w0) (umask w0) (ORename dest b)); discriminate.
 Qed.
 
 (* ---------- a section whose text does not parse performs no mutating operation ---------- *)
